@@ -16,6 +16,8 @@
 (*  17 l1kind   LZMA1 / LZMA1EXT without / with end marker                     *)
 (*  18 limit    output size limit of MicroLZMA      19 mtpreset  preset vs     *)
 (*              filters in lzma_mt                                             *)
+(*  20 update   lzma_filters_update() with different lc/lp/pb after the first  *)
+(*              flush (at the very start when there is no flush)               *)
 (* "dflt" = keep what lzma_lzma_preset(preset) gives.                          *)
 (*                                                                             *)
 (* Applicable(e, k) says whether dimension k means anything for entry point e  *)
@@ -66,6 +68,7 @@ Applicable(e, k) ==
       [] d = "chain" -> e \notin PresetOnly /\ e \notin Lzma1Entries
       [] d \in {"bsize", "threads", "mtpreset"} -> e = "stream_mt"
       [] d = "flush" -> e \in Flushable
+      [] d = "update" -> e \in Flushable                 \* lzma_filters_update() with new lc/lp/pb inside the input
       [] d = "oslice" -> e \in MultiCall /\ e # "microlzma"
       [] d = "l1kind" -> e \in {"raw1", "raw1_buffer"}
       [] d = "limit" -> e = "microlzma"
